@@ -6,7 +6,7 @@ From Coq Require Import Permutation.
 From LP Require Import Proofs.Tactics Proofs.LedgerBase Proofs.Loop Proofs.Shuffle Proofs.Gates Proofs.Frames Proofs.Filter
   Proofs.Alloc Proofs.Confirm Proofs.Settle Proofs.Ledger Proofs.Stage Proofs.Resume Proofs.FisherYates Proofs.Rng
   Proofs.Guaranteed Proofs.Nft Proofs.GuaranteedLoop Proofs.Leftover Proofs.ClaimLedger Proofs.Partition Proofs.Lifecycle Proofs.Setup
-  Proofs.Examples.
+  Proofs.Vesting Proofs.Examples.
 Open Scope N_scope.
 
 Lemma set_insert_NoDup x l : NoDup l -> NoDup (set_insert x l).
@@ -534,7 +534,13 @@ Inductive setup_reach_gt (v : variant) : world -> Prop :=
     exec H v e b sd w (CRefund la) = Ok (w', r) -> setup_reach_gt v w'
 | sg_unblacklist w e b sd la w' r :
     setup_reach_gt v w ->
-    exec H v e b sd w (CUnblacklist la) = Ok (w', r) -> setup_reach_gt v w'.
+    exec H v e b sd w (CUnblacklist la) = Ok (w', r) -> setup_reach_gt v w'
+| sg_sched1 w e b sd a0 b0 c0 d0 p0 w' r :
+    setup_reach_gt v w ->
+    exec H v e b sd w (CSetSchedule1 a0 b0 c0 d0 p0) = Ok (w', r) -> setup_reach_gt v w'
+| sg_sched2 w e b sd ls w' r :
+    setup_reach_gt v w ->
+    exec H v e b sd w (CSetSchedule2 ls) = Ok (w', r) -> setup_reach_gt v w'.
 
 Theorem setup_reach_gt_PreG v w : guar v -> setup_reach_gt v w -> exists l, PreG w l.
 Proof.
@@ -544,7 +550,9 @@ Proof.
                             | w e b sd lx w' r _ IH Hsc E
                             | w e b sd la w' r _ IH Hsc E
                             | w e b sd la w' r _ IH Hsc E
-                            | w e b sd la w' r _ IH E].
+                            | w e b sd la w' r _ IH E
+                            | w e b sd a0 b0 c0 d0 p0 w' r _ IH E
+                            | w e b sd ls w' r _ IH E].
   - exists []. eapply deploy_PreG; eauto.
   - destruct IH as [l Hl]. exists l. eapply PreG_exec_common; eauto.
   - destruct IH as [l Hl]. exists (l ++ v1_sizes lx).
@@ -586,6 +594,24 @@ Proof.
     cbn [credit_payment bind] in E. cbn [dispatch] in E.
     destruct (has_unblacklist v); [|discriminate]. unfold ret0 in E. mon_inv.
     eapply PreG_unblacklist; eauto.
+  - destruct IH as [l Hl]. exists l.
+    set (w0 := w <| evs := [] |> <| rlog := [] |> <| locks := [] |> <| seeds := sd |>).
+    assert (Hpre0 : PreG w0 l) by (eapply PreG_ext; [| |exact Hl]; reflexivity).
+    unfold exec in E. cbn [payable] in E. fold w0 in E.
+    apply bind_ok in E. destruct E as (u & Hnp & E). apply no_payment_nil in Hnp. rewrite Hnp in E.
+    cbn [credit_payment bind] in E. cbn [dispatch] in E.
+    destruct v; try discriminate. unfold ret0 in E. mon_inv.
+    match goal with Hd : set_unlock_schedule_v1 _ _ _ _ _ _ _ = Ok _ |- _ => apply set_unlock_schedule_v1_ok in Hd; destruct Hd as (_ & _ & _ & _ & Hs & Hb) end.
+    eapply PreG_neutral; [| | |exact Hpre0]; rewrite ?Hs, ?Hb; try reflexivity. unfold neutral. cbn. repeat split.
+  - destruct IH as [l Hl]. exists l.
+    set (w0 := w <| evs := [] |> <| rlog := [] |> <| locks := [] |> <| seeds := sd |>).
+    assert (Hpre0 : PreG w0 l) by (eapply PreG_ext; [| |exact Hl]; reflexivity).
+    unfold exec in E. cbn [payable] in E. fold w0 in E.
+    apply bind_ok in E. destruct E as (u & Hnp & E). apply no_payment_nil in Hnp. rewrite Hnp in E.
+    cbn [credit_payment bind] in E. cbn [dispatch] in E.
+    destruct v; try discriminate. unfold ret0 in E. mon_inv.
+    match goal with Hd : set_unlock_schedule_v2 _ _ _ = Ok _ |- _ => unfold set_unlock_schedule_v2 in Hd; mon_inv end.
+    eapply PreG_neutral; [| | |exact Hpre0]; rewrite ?st_emit, ?st_set_st, ?bal_emit, ?bal_set_st; try reflexivity. unfold neutral. cbn. repeat split.
 Qed.
 
 (** from deployment through the three stages *)
